@@ -91,41 +91,53 @@ def check_sections(paths, sink_ty, findings):
     return n
 
 
-def mutex_schedule_query(nthreads, ops_per_thread, timeout_ms=60000):
+def mutex_schedule_query(nthreads, ops_per_thread, timeout_ms=120000, broken=False):
     """Threads each performing `ops_per_thread` sections [lock ; body ; unlock] on one mutex: is there a schedule in which
-    two bodies overlap, or a thread's sections take effect out of program order? (unsat expected)"""
+    two bodies overlap, or a thread's sections take effect out of program order? (unsat expected). Bit-vector encoding:
+    per thread a phase (0 lock, 1 body, 2 unlock) and a section counter; `sched[t]` picks the thread that moves."""
     T = nthreads * ops_per_thread * 3
-    s = z3.Solver()
+    W = 4
+    s = z3.SolverFor('QF_BV')
     s.set('timeout', timeout_ms)
-    sched = [z3.Int('s_%d' % t) for t in range(T)]
-    pc = [[z3.IntVal(0)] for _ in range(nthreads)]
-    held = [z3.IntVal(-1)]           # -1 free, else holder
-    inbody = [[z3.BoolVal(False)] for _ in range(nthreads)]
-    overlap = []
-    order_bad = []
-    last_eff = [[z3.IntVal(-1)] for _ in range(nthreads)]
+    V = lambda v: z3.BitVecVal(v, W)
+    sched = [z3.BitVec('s_%d' % t, W) for t in range(T)]
+    phase = [V(0) for _ in range(nthreads)]
+    k = [V(0) for _ in range(nthreads)]
+    last_eff = [V(15) for _ in range(nthreads)]       # 15 = none yet
+    inbody = [z3.BoolVal(False) for _ in range(nthreads)]
+    held = z3.BoolVal(False)
+    overlap, order_bad = [], []
     for t in range(T):
-        s.add(sched[t] >= 0, sched[t] < nthreads)
-        nh = held[-1]
+        s.add(z3.ULT(sched[t], nthreads))
+        nheld = held
+        nphase, nk, nlast, ninbody = list(phase), list(k), list(last_eff), list(inbody)
         for i in range(nthreads):
             here = sched[t] == i
-            p = pc[i][-1]
-            s.add(z3.Implies(here, p < ops_per_thread * 3))
-            phase = p % 3
-            # lock is enabled only when the mutex is free
-            s.add(z3.Implies(z3.And(here, phase == 0), held[-1] == -1))
-            nh = z3.If(z3.And(here, phase == 0), z3.IntVal(i), z3.If(z3.And(here, phase == 2), z3.IntVal(-1), nh))
-            body_now = z3.And(here, phase == 1)
-            others_in = z3.Or(*[inbody[j][-1] for j in range(nthreads) if j != i]) if nthreads > 1 else z3.BoolVal(False)
+            s.add(z3.Implies(here, z3.ULT(k[i], ops_per_thread)))
+            if not broken:
+                s.add(z3.Implies(z3.And(here, phase[i] == 0), z3.Not(held)))      # lock only when free
+            nheld = z3.If(z3.And(here, phase[i] == 0), z3.BoolVal(True), z3.If(z3.And(here, phase[i] == 2), z3.BoolVal(False), nheld))
+            body_now = z3.And(here, phase[i] == 1)
+            others_in = z3.Or(*[inbody[j] for j in range(nthreads) if j != i]) if nthreads > 1 else z3.BoolVal(False)
             overlap.append(z3.And(body_now, others_in))
-            inbody[i].append(z3.If(z3.And(here, phase == 0), z3.BoolVal(True), z3.If(z3.And(here, phase == 2), z3.BoolVal(False), inbody[i][-1])))
-            k = p / 3
-            order_bad.append(z3.And(body_now, k <= last_eff[i][-1]))
-            last_eff[i].append(z3.If(body_now, k, last_eff[i][-1]))
-            pc[i].append(z3.If(here, p + 1, p))
-        held.append(nh)
+            order_bad.append(z3.And(body_now, last_eff[i] != 15, z3.ULE(k[i], last_eff[i])))
+            ninbody[i] = z3.If(z3.And(here, phase[i] == 0), z3.BoolVal(True), z3.If(z3.And(here, phase[i] == 2), z3.BoolVal(False), inbody[i]))
+            nlast[i] = z3.If(body_now, k[i], last_eff[i])
+            nphase[i] = z3.If(here, z3.If(phase[i] == 2, V(0), phase[i] + 1), phase[i])
+            nk[i] = z3.If(z3.And(here, phase[i] == 2), k[i] + 1, k[i])
+        # name the successor state (keeps the terms small)
+        held = z3.Bool('held_%d' % (t + 1))
+        s.add(held == nheld)
+        for i in range(nthreads):
+            for name, lst, nv in (('ph', phase, nphase), ('k', k, nk), ('le', last_eff, nlast)):
+                var = z3.BitVec('%s_%d_%d' % (name, i, t + 1), W)
+                s.add(var == nv[i])
+                lst[i] = var
+            var = z3.Bool('ib_%d_%d' % (i, t + 1))
+            s.add(var == ninbody[i])
+            inbody[i] = var
     for i in range(nthreads):
-        s.add(pc[i][-1] == ops_per_thread * 3)
+        s.add(k[i] == ops_per_thread, phase[i] == 0)
     reach = s.check()
     s.push()
     s.add(z3.Or(*(overlap + order_bad)))
@@ -171,9 +183,13 @@ def run(out, replay_path=None):
         npaths += check_sections(paths, sink_ty, findings)
         for f in findings[before:]:
             f['sink'] = sink_ty
-    reach, bad = mutex_schedule_query(3 if thorough else 2, 2)
+    nthr, nops = (5, 3) if thorough else (3, 2)
+    reach, bad = mutex_schedule_query(nthr, nops)
     if reach != 'sat' or bad == 'unknown':
         raise Unsupported('mutex schedule model: reach=%s bad=%s' % (reach, bad))
+    # twin: without the "lock only when free" rule the same query must find overlapping sections
+    if mutex_schedule_query(2, 2, broken=True)[1] != 'sat':
+        raise Unsupported('vacuous: the mutex schedule model cannot express overlapping sections')
     if bad == 'sat':
         findings.append({'clause': 'mutual-exclusion', 'detail': 'the schedule model admits overlapping sections (model error)'})
     # (b') a queuing sink in front of the buffered sink keeps each thread's order only while the worker is the single
@@ -215,9 +231,9 @@ def run(out, replay_path=None):
             'queries': {'total': tot['total'] + 2 + cw.get('queries', {}).get('total', 0)}, 'evaluations': tot['total'] + 2 + cw.get('evaluations', 0),
             'distinct_nontrivial': max(2, npaths),
             'rule': 'section-structure obligations on every path of emit/flush of the three buffered sinks; one symbolic-schedule query for the mutex protocol '
-                    '(%d threads x 2 operations); the writer obligations of C05-C07 as the sequential judge' % (3 if thorough else 2),
+                    '(%d threads x %d operations); the writer obligations of C05-C07 as the sequential judge' % (nthr, nops),
             'solver_time_s': round(st + cw.get('solver_time_s', 0.0), 2), 'functions_encoded': sorted(fns | set(cw.get('functions_encoded', []))), 'stubs': sorted(stubs_),
-            'bounds': {'threads': 3 if thorough else 2, 'ops_per_thread': 2, 'writer': cw.get('bounds')},
+            'bounds': {'threads': nthr, 'ops_per_thread': nops, 'writer': cw.get('bounds')},
             'mir': dinfo, 'samples': [{'sinks': [s[0] for s in sinks], 'section_paths': npaths, 'mutex_schedule_query': {'complete-schedule-exists': reach, 'overlap-or-reorder': bad}}],
         },
     }
@@ -246,5 +262,13 @@ def run(out, replay_path=None):
             out.violations.append({'key': 'c12:%s' % findings[0]['clause'], 'what': '%s (%s); native: %s' % (findings[0]['clause'], findings[0]['detail'][:300], hit[0]['detail'][:300]),
                                    'scenario': sc, 'native': hit})
         else:
+            sc2 = {'kind': 'c12-flush-contended'}
+            o2 = replay.run_scenarios([sc2], timeout=120)[0]
+            out.evidence['coverage']['traces_validated_against_impl'] += 1
+            hit2 = [v for v in o2.get('violations', []) if v['prop'] == pid]
+            if hit2:
+                out.violations.append({'key': 'c12:%s' % findings[0]['clause'], 'what': '%s (%s); native: %s' % (findings[0]['clause'], findings[0]['detail'][:300], hit2[0]['detail'][:300]),
+                                       'scenario': sc2, 'native': hit2})
+                return
             out.inconclusive.append('section structure violated (%s: %s) but concurrent emitters did not show a framing / conservation violation natively' % (
                 findings[0]['clause'], findings[0]['detail'][:300]))
